@@ -8,11 +8,12 @@ import (
 	"path/filepath"
 	"sort"
 	"strings"
+	"sync"
 )
 
 // ---- Coq term printing ----
 
-func cN(x uint64) string   { return fmt.Sprintf("%d", x) }
+func cN(x uint64) string     { return fmt.Sprintf("%d", x) }
 func cBig(x *big.Int) string { return x.String() }
 func cZ(x int64) string {
 	if x < 0 {
@@ -72,13 +73,23 @@ func newReport(engine string, cfg *runCfg) *Report {
 	return &Report{Engine: engine, Seed: cfg.seed, Tier: cfg.tier, Distribution: map[string]int{}, Extra: map[string]interface{}{}}
 }
 
-func (r *Report) count(k string) { r.Distribution[k]++ }
+var repMu sync.Mutex // the runtime engine counts and reports from several goroutines
+
+func (r *Report) count(k string) {
+	repMu.Lock()
+	r.Distribution[k]++
+	repMu.Unlock()
+}
 func (r *Report) sample(x interface{}, max int) {
+	repMu.Lock()
+	defer repMu.Unlock()
 	if len(r.Samples) < max {
 		r.Samples = append(r.Samples, x)
 	}
 }
 func (r *Report) finding(prop, sig, detail string, input interface{}) {
+	repMu.Lock()
+	defer repMu.Unlock()
 	k := "finding:" + prop + "/" + sig
 	r.Distribution[k]++
 	if r.Distribution[k] <= 4 { // keep the first few of each kind with their full input; count the rest
@@ -115,17 +126,22 @@ func newCaseFile(imports string) *caseFile { return &caseFile{imports: imports} 
 
 // addShards defines lists of cases (sharded) and requests `mismatches checker shard`.
 func (c *caseFile) addShards(name, ty, checker string, cases []string, shard int) {
+	c.addShardsFrom(name, ty, checker, cases, shard, 0, 0)
+}
+
+// addShardsFrom: as addShards, for a slice of a longer case list that starts at case index base; shard numbers start at k0
+func (c *caseFile) addShardsFrom(name, ty, checker string, cases []string, shard int, base int, k0 int) {
 	if shard <= 0 {
 		shard = 500
 	}
-	k := 0
+	k := k0
 	for i := 0; i < len(cases) || (i == 0 && len(cases) == 0); i += shard {
 		j := i + shard
 		if j > len(cases) {
 			j = len(cases)
 		}
 		fmt.Fprintf(&c.body, "Definition %s_%d : list (%s) := [\n  %s\n].\n", name, k, ty, strings.Join(cases[i:j], ";\n  "))
-		fmt.Fprintf(&c.body, "Definition M_%s_%d := Eval vm_compute in mismatches %s %d %s_%d.\nPrint M_%s_%d.\n", name, k, checker, i, name, k, name, k)
+		fmt.Fprintf(&c.body, "Definition M_%s_%d := Eval vm_compute in mismatches %s %d %s_%d.\nPrint M_%s_%d.\n", name, k, checker, base+i, name, k, name, k)
 		k++
 		if len(cases) == 0 {
 			break
